@@ -65,7 +65,8 @@ LEVEL_TEXT = ("Machine-checked theorems (Coq 8.16, closed under the global conte
 LEVEL_NOTE = ("Outside the (lifted) class (-- directly after an open multi-valued positional run, dont_delimit_trailing_values, last, trailing_var_arg, hyphen "
               "values of positionals, values after -- for commands with terminators/require_equals/hyphen options, require_equals options given without a value, low-index multiples, allow_missing_positional, flag/external subcommands, ignore_errors, "
               "args_conflicts_with_subcommands) conservation is checked by the python un-parser / model "
-              "comparison only; conv/convx are stated on the built command (decidable by computation; of the bridge from the command as "
+              "comparison only (the un-parser's own class includes a bare -- in front of the last positional run of the line, with and "
+              "without dont_delimit_trailing_values, and values of a started multi-valued positional spelled like subcommand names); conv/convx are stated on the built command (decidable by computation; of the bridge from the command as "
               "written only the per-argument and settings steps are proved, C02_bridge_*_partial); the pending-buffer bound is proved "
               "per loop step, not yet as one invariant of the loop.  Trusted: Coq kernel, extraction, "
               "OCaml driver, Rust harness, generators.")
@@ -177,6 +178,9 @@ def gen_conv_cmd(rng, depth=0, path="p", stats=None):
                     names.add(al)
                     s["aliases"] = [(al.encode(), rng.random() < 0.5)]
             c["subs"].append(s)
+    if depth == 0 and rng.random() < 0.25:
+        # a global setting: values written after `--` are not split at the delimiter (stream family `trailing`)
+        c["settings"].append("dont_delimit_trailing_values")
     return c
 
 
@@ -189,9 +193,10 @@ def split_delim(a, v):
 
 
 # ----------------------------------------------------------------------------- invocation -> (tokens, expected)
-def render_level(rng, c, stats):
+def render_level(rng, c, stats, ddtv=False):
     """Returns (tokens, expected levels).  expected level = (dict id -> {"occ": [[bytes]], "idx": [int]}, sub name)."""
     override_self = "args_override_self" in c["settings"]
+    ddtv = ddtv or "dont_delimit_trailing_values" in c["settings"]
     sub_names = set()
     for s in c["subs"]:
         sub_names.add(s["name"])
@@ -353,6 +358,17 @@ def render_level(rng, c, stats):
     # a multi-valued positional run must not be followed by further positional runs unless it is full
     # (keep: only the last positional is multi-valued in this class)
 
+    # the escape: a bare `--` in front of the LAST positional run of the line when nothing but that run follows; every
+    # token behind it is a value of that positional whatever it looks like, and under dont_delimit_trailing_values none of
+    # them is split at the delimiter (seeded change seed3/C02-3 split all but the last one)
+    escaped_run = None
+    if seq and seq[-1][0] == "pos" and not want_sub and rng.random() < 0.3:
+        a_, run_ = seq[-1][1]
+        if rng.random() < 0.5 and run_:
+            run_[rng.randrange(len(run_))] = pick(rng, [b"--x", b"-v", b"--", b"--help", b"-"] + sorted(sub_names))
+        escaped_run = seq[-1][1]
+        stats["escape before the last positional run" + (" (trailing values undelimited)" if ddtv else "")] += 1
+
     # ---- denote
     exp = collections.OrderedDict()
     idx = 0
@@ -361,7 +377,7 @@ def render_level(rng, c, stats):
     def entry(a):
         return exp.setdefault(a["id"], {"occ": [], "idx": []})
 
-    def occurrence(a, vals, is_flag_ident):
+    def occurrence(a, vals, is_flag_ident, whole=False):
         nonlocal idx
         act = a.get("action")
         if is_flag_ident:
@@ -372,7 +388,7 @@ def render_level(rng, c, stats):
         e = entry(a)
         g = []
         for v in vals:
-            for piece in split_delim(a, v):
+            for piece in ([v] if whole else split_delim(a, v)):
                 idx += 1
                 g.append(piece)
                 e["idx"].append(idx)
@@ -404,8 +420,10 @@ def render_level(rng, c, stats):
                     occurrence(a, vals, True)
         else:
             a, vals = x
+            if x is escaped_run:
+                toks.append(b"--")
             toks += vals
-            occurrence(a, vals, False)
+            occurrence(a, vals, False, whole=(x is escaped_run and ddtv))
     out_levels = [(exp, None)]
     if want_sub:
         s = pick(rng, c["subs"])
@@ -413,7 +431,7 @@ def render_level(rng, c, stats):
         nm = pick(rng, names)
         stats["sub:" + ("name" if nm == s["name"] else "alias")] += 1
         toks.append(nm)
-        st, sl = render_level(rng, s, stats)
+        st, sl = render_level(rng, s, stats, ddtv)
         toks += st
         out_levels = [(exp, s["name"])] + sl
     return toks, out_levels
